@@ -673,7 +673,9 @@ fn process_request_obj(request: &Request, dbs: &Arc<Databases>, client: &mut Cli
                     client,
                     &db_name,
                     &|db| {
-                        if dbs.is_primary() {
+                        // the primary applies it; so does a node that receives it from the
+                        // primary (forwarding it back would bounce it for ever)
+                        if dbs.is_primary() || client.is_primary() {
                             db.resolve_conflit(
                                 Change {
                                     key: key.clone(),
